@@ -88,3 +88,16 @@ func (f *Frame) bumpAlloc(cur *blockCur) {
 	cur.st = cur.st.set(allocKey, nw)
 	cur.assume(fmt.Sprintf("(>= %s %s)", nw, old))
 }
+
+// byteHeapAxiom: a declared heap (or cell) of byte arrays holds bytes. Every store the translation makes into such a
+// heap writes a value of type byte (converted, hence wrapped), so the fact is preserved by derived heaps.
+func (c *FuncCtx) byteHeapAxiom(k HeapKey, sym string, cell bool) {
+	if c.mode != ModeInt || k.Name != "A_uint8" {
+		return
+	}
+	if cell {
+		c.axiom(fmt.Sprintf("(forall ((i!b Int)) (! (and (<= 0 (select %s i!b)) (< (select %s i!b) 256)) :pattern ((select %s i!b))))", sym, sym, sym), sym)
+		return
+	}
+	c.axiom(fmt.Sprintf("(forall ((p!b Int) (i!b Int)) (! (and (<= 0 (select (select %s p!b) i!b)) (< (select (select %s p!b) i!b) 256)) :pattern ((select (select %s p!b) i!b))))", sym, sym, sym), sym)
+}
